@@ -139,9 +139,9 @@ def run(R, only=None):
     n = 330 if R.tier == "quick" else 3000
     specs = only or (WITNESSES + [GV.gen_value(rnd, supported=False, max_depth=3 if R.tier == "quick" else 4) for _ in range(n)])
     recs = K.run_impl_codec(specs, {"protocol": snap["protocol"], "cycles": 0})
-    bad, flags, idx = K.model_compare(R, recs, "c04", flags=["c04_case_ok", "c04_case_model_faithful"])
+    bad, flags, idx = K.model_compare(R, recs, "c04", flags=["c04_case_ok", "(c04_case_model_faithful Snapshot.registry Snapshot.current)"])
     ok_flags = dict(zip(idx, flags["c04_case_ok"]))
-    mf_flags = dict(zip(idx, flags["c04_case_model_faithful"]))
+    mf_flags = dict(zip(idx, flags["(c04_case_model_faithful Snapshot.registry Snapshot.current)"]))
     nok = 0
     for i in idx:
         if ok_flags.get(i):
